@@ -3,6 +3,7 @@ import PhysisModel.Model.CharDat
 import PhysisModel.Model.GearSets
 import PhysisModel.Spec.CharDatLayout
 import PhysisModel.Spec.GearSetLayout
+import PhysisModel.Base.Mutate
 /-!
 C09 driver.  Case grammar (see `harness/src/c09.rs`):
 
@@ -13,6 +14,13 @@ C09 driver.  Case grammar (see `harness/src/c09.rs`):
 * `gear <current> <unk1> <unk3> <sets>` — `<sets>` = `.` | `;`-separated
   `<pos>:<index>:<name>:<unk64>:<facewear|->:<slots>`, `<slots>` = `.` | `,`-separated
   `<slot>/<id>/<glamour|->/<u1>/<u2>/<u3>/<u4>/<u5>`.
+
+* `mut <seed> <k> char …` / `mut <seed> <k> gear …` — the same encoded file with `k` bytes damaged
+  (`Base/Mutate.lean`); expected = the answer of the model of the code on the damaged file (tags
+  `corr mut`): what the damaged file parses to (F), what the parsed value is written as (W; a
+  written file that differs from the input is reported as its hex / as length + FNV-1a hash), and
+  the writes of the abstract case (D, T) as in the plain ops.  `W[panic]`: a damaged comment with a
+  NUL inside parses and then panics in `write_string` (see `corpus/C09/mut-comment-interior-nul.case`).
 
 The `<input>` column is `<op> <file>` with the file produced by the `Spec/` encoder.
 -/
@@ -132,34 +140,74 @@ def modelBuilt (base : GearSets.GearSets) (t : Spec.GearSet.Table) : GearSets.Ge
                 ({ index := g.index, name := g.name, facewear := g.facewear,
                    slots := g.slots.map (Option.map fun s => ({ id := s.id, glamourId := s.glamour } : GearSets.GearSlot)) } : GearSets.GearSet)) }
 
+/-- FNV-1a (32 bit) of a written file that differs from the input: both sides print length and hash -/
+def fnv1a (bs : Bytes) : UInt32 :=
+  bs.foldl (fun h b => (h ^^^ b.toUInt32) * 16777619) 2166136261
+
+def sameOrHash (file x : Bytes) : String :=
+  if x == file then "same" else "diff:" ++ toString x.length ++ ":" ++ toString (fnv1a x).toNat
+
 def modelGear (file : Bytes) (t : Spec.GearSet.Table) : String :=
   match GearSets.parseGear file with
   | .none => "none"
   | .panic => "panic"
   | .ok g =>
     let w := GearSets.writeGear g
-    let d := if buildable t then (let wd := GearSets.writeGear (modelBuilt g t); if wd == file then "same" else "diff:" ++ toString wd.length) else "skip"
+    let d := if buildable t then sameOrHash file (GearSets.writeGear (modelBuilt g t)) else "skip"
     -- the same value with the list cut behind its last used position, and with three extra
     -- unused positions appended: the writer always emits the fixed 100-slot table
     let trimmed (b : GearSets.GearSets) : GearSets.GearSets :=
       { b with gearsets := (b.gearsets.reverse.dropWhile (·.isNone)).reverse }
     let longer (b : GearSets.GearSets) : GearSets.GearSets :=
       { b with gearsets := b.gearsets ++ [none, none, none] }
-    let sameOrLen (x : Bytes) : String := if x == file then "same" else "diff:" ++ toString x.length
+    let sameOrLen (x : Bytes) : String := sameOrHash file x
     let t := if buildable t then
         sameOrLen (GearSets.writeGear (trimmed (modelBuilt g t))) ++ "," ++ sameOrLen (GearSets.writeGear (longer (modelBuilt g t)))
       else "skip"
-    "F[" ++ showGearSets g ++ "]|W[" ++ (if w == file then "same" else "diff:" ++ toString w.length) ++ "]|D[" ++ d ++ "]|T[" ++ t ++ "]"
+    "F[" ++ showGearSets g ++ "]|W[" ++ sameOrHash file w ++ "]|D[" ++ d ++ "]|T[" ++ t ++ "]"
+
+def handleChar (v a t c : String) (dmg : Option (UInt64 × Nat) := none) : String :=
+  match presetOf v a t c with
+  | some p =>
+    if let some (seed, k) := dmg then
+      -- the documented file is 212 bytes: positions uniform over the whole file
+      let file := Mutate.mutate (Spec.CharDat.encode p) seed k
+      answer ("char " ++ file.toHex) (modelChar file p) ["corr", "mut"]
+    else
+    let file := Spec.CharDat.encode p
+    answer ("char " ++ file.toHex) ("F[" ++ showPreset p ++ "]|W[same]|D[same]") [] (some (modelChar file p))
+  | none => bad
+
+def handleGear (cur u1 u3 sets : String) (dmg : Option (UInt64 × Nat) := none) : String :=
+  match tableOf cur u1 u3 sets with
+  | some t =>
+    if let some (seed, k) := dmg then
+      -- half of the positions in the header, the table head and the first set (17 + 4 + 452 bytes)
+      let file := Mutate.mutate (Spec.GearSet.encode t) seed k 473
+      answer ("gear " ++ Bytes.toHex file) (modelGear file t) ["corr", "mut"]
+    else
+    let file := Spec.GearSet.encode t
+    let tags := if Spec.GearSet.overlapsMarker t then ["kf:gearsets.id-overlaps-marker"] else []
+    let tags := if t.sets.all (·.isNone) then "triv" :: tags else tags
+    answer ("gear " ++ Bytes.toHex file)
+      ("F[" ++ showTable t ++ "]|W[same]|D[" ++ (if buildable t then "same" else "skip") ++ "]|T[" ++
+        (if buildable t then "same,same" else "skip") ++ "]") tags
+      (some (modelGear file t))
+  | none => bad
 
 /-- one case line in, one answer line out (see `Base/Proto.lean`) -/
 def handle (line : String) : String :=
   match fields line with
-  | ["char", v, a, t, c] =>
-    match presetOf v a t c with
-    | some p =>
-      let file := Spec.CharDat.encode p
-      answer ("char " ++ file.toHex) ("F[" ++ showPreset p ++ "]|W[same]|D[same]") [] (some (modelChar file p))
-    | none => bad
+  | ["char", v, a, t, c] => handleChar v a t c
+  | ["gear", cur, u1, u3, sets] => handleGear cur u1 u3 sets
+  | ["mut", seed, k, "char", v, a, t, c] =>
+    match seed.toNat?, k.toNat? with
+    | some s, some k => handleChar v a t c (some (s.toUInt64, k))
+    | _, _ => bad
+  | ["mut", seed, k, "gear", cur, u1, u3, sets] =>
+    match seed.toNat?, k.toNat? with
+    | some s, some k => handleGear cur u1 u3 sets (some (s.toUInt64, k))
+    | _, _ => bad
   | ["charbad", v, a, t, c] =>
     match presetOf v a t c with
     | some p =>
@@ -168,17 +216,6 @@ def handle (line : String) : String :=
       let file := Spec.CharDat.encode p
       answer ("charbad " ++ file.toHex) "none" []
         (some (match CharDat.parseChar file with | none => "none" | some d => "F[" ++ showPreset d ++ "]"))
-    | none => bad
-  | ["gear", cur, u1, u3, sets] =>
-    match tableOf cur u1 u3 sets with
-    | some t =>
-      let file := Spec.GearSet.encode t
-      let tags := if Spec.GearSet.overlapsMarker t then ["kf:gearsets.id-overlaps-marker"] else []
-      let tags := if t.sets.all (·.isNone) then "triv" :: tags else tags
-      answer ("gear " ++ Bytes.toHex file)
-        ("F[" ++ showTable t ++ "]|W[same]|D[" ++ (if buildable t then "same" else "skip") ++ "]|T[" ++
-          (if buildable t then "same,same" else "skip") ++ "]") tags
-        (some (modelGear file t))
     | none => bad
   | _ => bad
 
